@@ -49,7 +49,6 @@ class LLImpl(PaletteUser):
         - locals_dict: dictionary of console's locals
         """
         self.locals_dict = locals_dict
-        self._c = self._mk_palette(None, None, None)
 
     # !!! is not used anywhere. Need tests
     def gen_sh_lines(self) -> Iterator[CHText]:
@@ -59,6 +58,7 @@ class LLImpl(PaletteUser):
         # each category has list of items with description and list of
         # items w/o description
         items_by_category = {}  # {category_name: ([(name, descr), ], [name, ])}
+        _c = self._mk_palette(None, None, None)
 
         cat_sort_weights = {}
 
@@ -86,20 +86,20 @@ class LLImpl(PaletteUser):
             if cat_is_first:
                 cat_is_first = False
             else:
-                yield CHText(self._c.text(""))
-            yield CHText(self._c.categoty(category_name), ":")
+                yield CHText(_c.text(""))
+            yield CHText(_c.categoty(category_name), ":")
             items, items_wo_descr = items_by_category[category_name]
             if items:
                 items.sort(key=lambda kv: kv[0])
                 max_name_len = max(len(item[0]) for item in items)
                 name_col_len = min(max_name_len, 20) + 1
                 for name, descr in items:
-                    c_name_descr = CHText(self._c.name(name)).fixed_len(name_col_len)
+                    c_name_descr = CHText(_c.name(name)).fixed_len(name_col_len)
                     c_name_descr += ("", f": {descr}")
                     yield c_name_descr
             if items_wo_descr:
                 yield CHText("  ") + CHText(", ").join(
-                    self._c.name(name)
+                    _c.name(name)
                     for name in items_wo_descr)
 
     def _get_explicit_value_descr(self, value):
@@ -166,7 +166,6 @@ class HCommand(PaletteUser):
 
     def __init__(self, dets_level=_LEVEL_H):
         self.dets_level = dets_level
-        self._c = self._mk_palette(None, None, None)
 
     def __call__(self, obj, filt=_DFLT_FILT_ARG):
         # this method does not return the help text, but prints it
@@ -188,8 +187,9 @@ class HCommand(PaletteUser):
 
         # Object is h-doc capable if it has '_h_doc' attribute.
         if hasattr(obj, '_h_doc'):
+            _c = self._mk_palette(None, None, None)
             yield from obj._h_doc.gen_help_text(
-                obj, filt, self._c, dets_level, fmt_oneline)
+                obj, filt, _c, dets_level, fmt_oneline)
 
     def _get_ll_descr(self):
         # object description for 'll' command
